@@ -49,6 +49,32 @@ func vpScenario(cmdIdx int) (argv []string, first []byte) {
 		return []string{"rm", "d/b"}, first
 	case 12:
 		return []string{"restore", "a"}, first
+	case 18:
+		return []string{"rm", "d"}, first // a whole tracked directory
+	case 19:
+		zzvp.RemoveAll(w + "/d")
+		return []string{"restore", "d"}, first // re-creates a directory and two files
+	case 20:
+		zzvp.RemoveAll(w + "/a")
+		zzvp.WriteFile(w+"/a/x", []byte("9"))
+		return []string{"add", "a"}, first // the tracked file has become a directory
+	case 21:
+		vpOK(zzvp.Run("switch", "dev"))
+		vpOK(zzvp.Run("add", "a"))
+		return []string{"commit", "-m", "on dev"}, first // commit on a branch other than the first
+	case 23:
+		return []string{"config", "--global", "user.name", "Glob"}, first
+	case 24:
+		vpOK(zzvp.Run("switch", "dev"))
+		return []string{"branch", "-r", "zeta"}, first // rename that changes the branch's sort position
+	case 25:
+		zzvp.WriteFile(w+"/n/m", []byte("5"))
+		zzvp.RemoveAll(w + "/d/c")
+		return []string{"add", "."}, first // new directory, edited file and deleted file in one add
+	}
+	if cmdIdx == 22 {
+		zzvp.WriteFile(w+"/n/m", []byte("5"))
+		vpOK(zzvp.Run("add", "n/m"))
 	}
 	vpOK(zzvp.Run("add", "a"))
 	vpOK(zzvp.Run("commit", "-m", "second"))
@@ -65,11 +91,13 @@ func vpScenario(cmdIdx int) (argv []string, first []byte) {
 	case 17:
 		vpOK(zzvp.Run("rm", "a"))
 		return []string{"restore", "--staged", "a"}, first
+	case 22:
+		return []string{"reset", "--hard", "HEAD@{1}"}, first // the target lacks a directory the current commit has
 	}
 	return []string{"status"}, first
 }
 
-const vpNumScenarios = 18
+const vpNumScenarios = 26
 
 func vpHexOfBranch(n string) string {
 	id, _, _ := vpBranch(n)
@@ -198,9 +226,10 @@ func VP_C16_Fault() {
 			zzvp.Assert(good && tok && vpSamePairList(flat, idx), "a commit reported as successful has its parent link, snapshot and blobs")
 		case "add":
 			idx, _ := vpReadIndex()
-			cur, _ := zzvp.ReadFile(zzvp.Root() + "/a")
-			id, found := vpFindPair(idx, "a")
-			zzvp.Assert(found && id == string(vpBlobID(cur)), "an add reported as successful staged the current bytes")
+			if cur, isFile := zzvp.ReadFile(zzvp.Root() + "/a"); isFile {
+				id, found := vpFindPair(idx, "a")
+				zzvp.Assert(found && id == string(vpBlobID(cur)), "an add reported as successful staged the current bytes")
+			}
 		}
 	} else {
 		for i, n := range before.names {
